@@ -191,6 +191,11 @@ func (lm *levelManager) flush(immutable *memTable) (err error) {
 
 	iter.Rewind()
 	if !iter.Valid() {
+		// An empty memtable has nothing to flush, but its WAL segment may still hold raft
+		// records that a raft group has not truncated yet.
+		if !lm.canRemoveWalSegment(uint32(fid)) {
+			return nil
+		}
 		if err := lm.lsm.wal.RemoveSegment(uint32(fid)); err != nil && !errors.Is(err, os.ErrNotExist) {
 			return err
 		}
